@@ -335,3 +335,32 @@ MUTATIONS += [
       find="        self.start_partition = if self.start_partition == self.partition_range_end_inclusive {\n            self.partition_range_start_inclusive\n        } else {\n            self.start_partition + 1\n        };",
       replace="        let num_partitions =\n            self.partition_range_end_inclusive - self.partition_range_start_inclusive + 1;\n        let offset = old_start_partition - self.partition_range_start_inclusive;\n        self.start_partition = self.partition_range_start_inclusive + (offset + 1) % num_partitions;"),
 ]
+MUTATIONS += [
+ # ---- properties that had no breaking mutation yet
+ dict(name="c12-transient-test-dropped-db-read-for-transient-substates", props=["C12"], file="radix-engine/src/track/track.rs",
+      find="                if self\n                    .transient_substates\n                    .is_transient(node_id, partition_number, &substate_key)\n                {\n                    let tracked = TrackedSubstate {\n                        substate_key: substate_key.clone(),\n                        substate_value: TrackedSubstateValue::ReadOnly(ReadOnly::NonExistent),",
+      replace="                if false && self\n                    .transient_substates\n                    .is_transient(node_id, partition_number, &substate_key)\n                {\n                    let tracked = TrackedSubstate {\n                        substate_key: substate_key.clone(),\n                        substate_value: TrackedSubstateValue::ReadOnly(ReadOnly::NonExistent),",
+      expect=["C12"]),
+ dict(name="c14-reset-partition-falls-through-to-root", props=["C14"], file="radix-substate-store-impls/src/substate_database_overlay.rs",
+      find="                        // does not exist.\n                        None => OverlayLookupResult::Found(None),",
+      replace="                        // does not exist.\n                        None => OverlayLookupResult::NotFound,", expect=["C14"]),
+ dict(name="c17-reset-keeps-old-root", props=["C17"], file="radix-substate-store-impls/src/state_tree/substate_tier.rs",
+      find="                self.set_root_version(None);\n\n                Box::new(\n                    new_substate_values", replace="                Box::new(\n                    new_substate_values",
+      expect=["substate-tier|reset-empties-root"]),
+ dict(name="c24-checked-add-uses-panicking-operator", props=["C24"], file="radix-common/src/math/decimal.rs",
+      find="        let a = self.0;\n        let b = other.0;\n        let c = a.checked_add(b);\n        c.map(Self)",
+      replace="        let a = self.0;\n        let b = other.0;\n        Some(Self(a + b))", expect=["C24"]),
+ dict(name="c25-to-positive-infinity-rounds-down", props=["C25"], file="radix-common/src/math/rounding_mode.rs",
+      find="            RoundingMode::ToPositiveInfinity => ResolvedRoundingStrategy::RoundUp,\n            RoundingMode::ToNegativeInfinity => ResolvedRoundingStrategy::RoundDown,",
+      replace="            RoundingMode::ToPositiveInfinity => ResolvedRoundingStrategy::RoundDown,\n            RoundingMode::ToNegativeInfinity => ResolvedRoundingStrategy::RoundDown,", expect=["C25"]),
+ dict(name="c26-nth-root-zero-degree-not-rejected", props=["C26"], file="radix-common/src/math/decimal.rs",
+      find="        if (self.is_negative() && n.is_multiple_of(2)) || n == 0 {\n            None\n        } else if n == 1 {\n            Some(*self)\n        } else {\n            if self.is_zero() {\n                return Some(Self::ZERO);\n            }\n\n            // By induction, we need to multiply by the (n-1)th power of 10^18.",
+      replace="        if self.is_negative() && n.is_multiple_of(2) {\n            None\n        } else if n == 1 {\n            Some(*self)\n        } else {\n            if self.is_zero() {\n                return Some(Self::ZERO);\n            }\n\n            // By induction, we need to multiply by the (n-1)th power of 10^18.",
+      expect=["C26"]),
+ dict(name="c27-fraction-digits-check-removed", props=["C27"], file="radix-common/src/math/decimal.rs",
+      find="            if !v[1].bytes().all(|b| b.is_ascii_digit()) {\n                return Err(Self::Err::InvalidDigit);\n            }\n", replace="", expect=["C27"]),
+ dict(name="c37-at-least-amount-never-fails", props=["C37"], file="radix-common/src/data/manifest/model/manifest_resource_assertion.rs",
+      find="            ManifestResourceConstraint::AtLeastAmount(expected_at_least_amount) => {\n                if amount < expected_at_least_amount {\n                    return Err(ResourceConstraintError::ExpectedAtLeastAmount {\n                        expected_at_least_amount,\n                        actual_amount: amount,\n                    });\n                }\n            }\n            ManifestResourceConstraint::ExactNonFungibles(..) => {\n                return Err(\n                    ResourceConstraintError::NonFungibleConstraintNotValidForFungibleResource,",
+      replace="            ManifestResourceConstraint::AtLeastAmount(_expected_at_least_amount) => {}\n            ManifestResourceConstraint::ExactNonFungibles(..) => {\n                return Err(\n                    ResourceConstraintError::NonFungibleConstraintNotValidForFungibleResource,",
+      expect=["C37"]),
+]
